@@ -103,3 +103,9 @@ pub fn limit_stack_depth(depth_limit: usize) -> StackDepthLimitOverrideGuard {
 pub fn set_stack_depth_limit(depth_limit: usize) {
 	std::mem::forget(limit_stack_depth(depth_limit));
 }
+
+/// Verification hooks (read-only), compiled only with `--cfg jrsonnet_verif`
+#[cfg(jrsonnet_verif)]
+pub(crate) fn verif_depth_and_limit() -> (usize, usize) {
+	STACK_LIMIT.with(|limit| (limit.current_depth.get(), limit.max_stack_size.get()))
+}
